@@ -1505,7 +1505,12 @@ fn main() {
         .iter()
         .step_by(4)
         .map(|xs| {
-            let needle = if !xs.is_empty() && rng.chance(2, 3) { mutate(&mut rng, &xs[rng.below(xs.len())]) } else { gen_scalar(&mut rng) };
+            let needle = if !xs.is_empty() && rng.chance(2, 3) {
+                let j = rng.below(xs.len());
+                mutate(&mut rng, &xs[j])
+            } else {
+                gen_scalar(&mut rng)
+            };
             let container = if rng.chance(1, 8) { gen_str(&mut rng) } else { Value::from(xs.clone()) };
             (container, needle)
         })
